@@ -15,26 +15,35 @@ Rec == ndJsonDeserialize(IOEnv.TRACE)
 VARIABLES l, bad
 tvars == <<l, bad>>
 
-\* fold over the events of one run; state = [len (per object kind), tables]
+\* fold over the events of one run; state = cache length per object kind, the set of tables present, and per thread
+\* the lock phase it is in (idle -> hit | miss -> ready -> idle) together with what it asked for.  The global part says the
+\* shared object evolves like the specification's; the per-thread part says every thread walks through the phases of
+\* KeyCache / GaloisCache in order and uses what it asked for.
 RECURSIVE Fold(_, _, _, _)
 Fold(evs, i, st, n) ==
-  IF i > Len(evs) THEN TRUE
-  ELSE LET e == evs[i] IN
+  IF i > Len(evs) THEN \A t \in DOMAIN st.pc : st.pc[t] = "idle"            \* every operation ran to completion
+  ELSE LET e == evs[i]
+           t == e.t
+           pc == st.pc[t]
+           Go(st2, phase, want) == Fold(evs, i+1, [st2 EXCEPT !.pc[t] = phase, !.want[t] = want], n)
+       IN
     IF e.obj \in {"dec", "kg"} THEN
       LET cur == st[e.obj] IN
-      CASE e.site = "read"       -> e.f[1] = cur /\ Fold(evs, i+1, st, n)
-        [] e.site = "write_skip" -> e.f[1] = cur /\ cur >= e.f[2] /\ Fold(evs, i+1, st, n)
-        [] e.site = "write"      -> e.f[1] = cur /\ e.f[2] > cur /\ e.f[3] = e.f[2] /\ Fold(evs, i+1, [st EXCEPT ![e.obj] = e.f[3]], n)
-        [] e.site = "use"        -> e.f[1] = cur /\ cur >= e.f[2] /\ Fold(evs, i+1, st, n)
+      CASE e.site = "read"       -> pc = "idle" /\ e.f[1] = cur /\ Go(st, IF cur >= e.f[2] THEN "hit" ELSE "miss", e.f[2])
+        [] e.site = "write_skip" -> pc = "miss" /\ e.f[2] = st.want[t] /\ e.f[1] = cur /\ cur >= e.f[2] /\ Go(st, "ready", e.f[2])
+        [] e.site = "write"      -> pc = "miss" /\ e.f[2] = st.want[t] /\ e.f[1] = cur /\ e.f[2] > cur /\ e.f[3] = e.f[2]
+                                    /\ Go([st EXCEPT ![e.obj] = e.f[3]], "ready", e.f[2])
+        [] e.site = "use"        -> pc \in {"hit", "ready"} /\ e.f[2] = st.want[t] /\ e.f[1] = cur /\ cur >= e.f[2] /\ Go(st, "idle", 0)
         [] OTHER -> FALSE
     ELSE
       LET has == e.f[1] \in st.tables IN
-      CASE e.site = "check"    -> (e.f[2] > 0) = has /\ Fold(evs, i+1, st, n)
-        [] e.site = "generate" -> e.f[2] = n /\ Fold(evs, i+1, [st EXCEPT !.tables = st.tables \cup {e.f[1]}], n)
-        [] e.site = "use"      -> has /\ e.f[2] = n /\ Fold(evs, i+1, st, n)
+      CASE e.site = "check"    -> pc = "idle" /\ (e.f[2] > 0) = has /\ Go(st, IF has THEN "hit" ELSE "miss", e.f[1])
+        [] e.site = "generate" -> pc = "miss" /\ e.f[1] = st.want[t] /\ e.f[2] = n /\ Go([st EXCEPT !.tables = st.tables \cup {e.f[1]}], "ready", e.f[1])
+        [] e.site = "use"      -> pc \in {"hit", "ready"} /\ e.f[1] = st.want[t] /\ has /\ e.f[2] = n /\ Go(st, "idle", 0)
         [] OTHER -> FALSE
 
-RunOk(r) == r.results_ok /\ Fold(r.events, 1, [dec |-> 1, kg |-> 1, tables |-> {}], r.n)
+RunOk(r) == r.results_ok /\ (\A t \in 1..r.threads : \E i \in 1..Len(r.events) : r.events[i].t = t)      \* every thread took part
+                        /\ Fold(r.events, 1, [dec |-> 1, kg |-> 1, tables |-> {}, pc |-> [t \in 1..r.threads |-> "idle"], want |-> [t \in 1..r.threads |-> 0]], r.n)
 
 TInit == l = 1 /\ bad = <<>>
 TNext == /\ l <= Len(Rec)
